@@ -149,6 +149,50 @@ MOTIFS = [
     # an instance created from inside a formula of another space
     [["new_space", "-", "S", 0, []], ["new_cells", "S", "f", C(1)], ["new_space", "-", "C", None, []],
      ["new_cells", "C", "c", IW.CALLER_SRC.format(s="S", a="f")]],
+    # a replicated child that DERIVES its members from a plain space (they can only be edited through that space);
+    # a model-level reference of the same name behind the derived one
+    [["set_mref", "r", 12], ["new_space", "-", "A", None, []], ["set_ref", "A", "r", 3], ["new_cells", "A", "f", C(3)],
+     ["new_cells", "A", "g", C(2, a="f", k=1)], ["new_cells", "A", "q", C(1)], ["new_space", "-", "S", 0, []],
+     ["new_space", "S", "X", None, ["A"]], ["new_cells", "S", "h", C(5, c="X", a="g")]],
+    # a grandchild deriving from the child of a plain space; the parametrised space itself derives from another one
+    [["new_space", "-", "A", None, []], ["new_space", "A", "Y", None, []], ["set_ref", "A.Y", "s", 2],
+     ["new_cells", "A.Y", "q", C(9, k=1)], ["new_cells", "A.Y", "h", C(2, a="q", k=2)], ["new_space", "-", "O", None, []],
+     ["new_cells", "O", "f", C(1)], ["new_space", "-", "S", 1, ["O"]], ["new_space", "S", "X", None, []],
+     ["new_space", "S.X", "Z", None, ["A.Y"]], ["new_cells", "S.X", "g", C(5, c="Z", a="h")]],
+    # the foreign base chosen by the parameter formula has a child deriving from a plain space
+    [["new_space", "-", "A", None, []], ["set_ref", "A", "r", 5], ["new_cells", "A", "q", C(3)],
+     ["new_cells", "A", "h", C(2, a="q", k=3)], ["new_space", "-", "O", None, []], ["new_cells", "O", "f", C(1)],
+     ["new_space", "O", "X", None, ["A"]], ["new_cells", "O", "g", C(5, c="X", a="h")], ["new_space", "-", "T", 3, []]],
+    # SEVERAL parametrised parents choosing the same foreign base: S[a] and T[a] are instances with equal
+    # arguments under different parents; callers elsewhere hold values computed through both
+    [["new_space", "-", "O", None, []], ["new_cells", "O", "f", C(1)], ["new_cells", "O", "g", C(2, a="f", k=1)],
+     ["set_ref", "O", "r", 4], ["new_cells", "O", "h", C(3)], ["new_space", "O", "X", None, []],
+     ["new_cells", "O.X", "q", C(1)], ["new_space", "-", "S", 3, []], ["new_space", "-", "T", 3, []],
+     ["new_space", "-", "C", None, []], ["new_cells", "C", "c", IW.CALLER_SRC.format(s="S", a="g")],
+     ["new_cells", "C", "d", IW.CALLER_SRC.format(s="T", a="h")]],
+    # nested parametrised spaces queried with EQUAL arguments at both levels (S[a].X[a]); the nested one has a
+    # replicated child of its own
+    [["new_space", "-", "S", 0, []], ["new_cells", "S", "f", C(1)], ["new_space", "S", "X", 5, []],
+     ["new_cells", "S.X", "q", C(8)], ["new_cells", "S.X", "g", C(2, a="q", k=2)], ["set_ref", "S.X", "r", 6],
+     ["new_cells", "S.X", "h", C(3)], ["new_space", "S.X", "Z", None, []], ["new_cells", "S.X.Z", "q", C(0, k=4)]],
+    # two parents (one of them with two parameters, the default equal to the other's argument) choosing a foreign
+    # base that has a parametrised child: S[a].X[a], T[a, 2].X[a]
+    [["new_space", "-", "A", None, []], ["new_cells", "A", "f", C(1)], ["new_space", "-", "O", None, ["A"]],
+     ["new_cells", "O", "g", C(2, a="f", k=2)], ["set_ref", "O", "s", 1], ["new_cells", "O", "h", C(9, k=1)],
+     ["new_space", "O", "X", 5, []], ["new_cells", "O.X", "q", C(8)],
+     ["new_space", "-", "S", 3, []], ["new_space", "-", "T", 4, []]],
+    # TWO definers of one cells name: the parametrised space O derives f from A (first) and B; T chooses O as its
+    # base; no references anywhere - a base-order-changing edit (remove_bases, deleting the first definer's cells)
+    # re-points the EXISTING derived cells of O at the other definer in place
+    [["new_space", "-", "A", None, []], ["new_cells", "A", "f", C(0, k=1)], ["new_cells", "A", "g", C(2, a="f", k=1)],
+     ["new_space", "-", "B", None, []], ["new_cells", "B", "f", C(0, k=5)], ["new_cells", "B", "h", C(2, a="f", k=2)],
+     ["new_space", "-", "O", 0, ["A", "B"]], ["new_space", "-", "T", 3, []]],
+    # ... the first definer can also arrive later: O derives f from B through its bases P (empty) and B; adding A,
+    # which defines f as well, to P puts a new first definer in front of B; the replicated child X derives likewise
+    [["new_space", "-", "A", None, []], ["new_cells", "A", "f", C(0, k=1)], ["new_space", "-", "B", None, []],
+     ["new_cells", "B", "f", C(0, k=5)], ["new_cells", "B", "g", C(2, a="f", k=3)], ["new_space", "-", "P", None, []],
+     ["new_space", "-", "S", 0, ["P", "B"]], ["new_space", "S", "X", None, ["P", "B"]],
+     ["new_cells", "S", "h", C(5, c="X", a="g")]],
 ]
 CORE_MOTIFS = [0, 1, 2, 3, 4, 5, 6]       # inside the vocabulary the Lean model covers
 
@@ -297,7 +341,14 @@ def gen_next(rng, world, prev, wide):
         free = [n for n in pool if n not in s.spaces]
         if not free:
             return ["new_cells", path, rng.choice(CELLS), cell_src(rng, s, nested)]
-        return ["new_space", path, rng.choice(free), rng.choice([None, None, 5, 0, 6]), []]
+        bases = []
+        if wide and rng.random() < 0.4:
+            # the new child derives its members from a plain space (or the child of one) elsewhere
+            cand = [p for p, sp in statics if p.split(".")[0] in ("A", "B", "O") and p.split(".")[0] != path.split(".")[0]
+                    and IW.params_of(sp) is None]
+            if cand:
+                bases = [rng.choice(cand)]
+        return ["new_space", path, rng.choice(free), rng.choice([None, None, 5, 0, 6]), bases]
     if k == "del_space":
         if "." in path or rng.random() < 0.3:
             return ["del_space", path]
@@ -330,8 +381,8 @@ def gen_next(rng, world, prev, wide):
         if have:
             return ["del_mref", rng.choice(have)]
     if k == "add_bases":
-        cand = [p for p, sp in statics if "." not in p and p != path.split(".")[0] and p in ("A", "O", "S", "T")]
-        if cand and "." not in path:
+        cand = [p for p, sp in statics if "." not in p and p != path.split(".")[0] and p in ("A", "B", "P", "O", "S", "T")]
+        if cand and ("." not in path or rng.random() < 0.5):
             return ["add_bases", path, [rng.choice(cand)]]
         if "A" not in m.spaces:
             return ["new_space", "-", "A", None, []]
@@ -988,100 +1039,307 @@ def run_one(ops, out, stats, rng=None, n_ops=0, wide=True, motif=None, corr=True
         mi = motif if motif is not None else rng.choice(range(len(MOTIFS)) if wide else CORE_MOTIFS)
         ops += [json.loads(json.dumps(o)) for o in MOTIFS[mi]]
         stats["motif:%d" % mi] += 1
+    k = 0
     try:
-        k = 0
-        while True:
-            if k >= len(ops):
-                if rng is None or k >= n_ops:
-                    break
-                ops.append(gen_next(rng, world, ops, wide))
-            op = ops[k]
-            hist = {"ops": ops[:k + 1]}
-            kind = op[0]
-            stats["op:" + kind] += 1
-            is_edit = kind in IW.EDIT_KINDS
-            live_before = [e for e in IW.dyn_entries(world.m) if e[3] and len(e[1]) == 1]
-            if kind in IW.DEF_EDITS:
-                per_parent = collections.Counter(e[0] for e in live_before)
-                if per_parent and max(per_parent.values()) >= 2:
-                    run.edited_with_two = True
-                    stats["edits_with_two_live_instances"] += 1
-                run.pre_edit(world, op)
-            if kind == "assign":
-                before = {}
-                target = IW.canon_chain(world.m, op[1], op[2])
-                for p, c, d, it in IW.dyn_entries(world.m):
-                    if it:
-                        before[(p, json.dumps(c))] = (d, IW.held_values(d))
-            had_ref = False
-            if kind == "set_ref":
-                try:
-                    had_ref = op[2] in IW.static_space(world.m, op[1])._own_refs
-                except Exception:
-                    pass
-            r = world.apply(op)
-            trace.append(r)
-            if corr:
-                st = IW.all_static(world.m)
-                pend, run.pending = run.pending, []
-                records.append((k, pend + model_lines_for(op, r, had_ref, st[0][0] if st else None),
-                                impl_result_for(world, op, r), impl_obs(world, keep)))
-            if r.startswith("err"):
-                stats["rejected:" + kind] += 1
-                if kind == "eval":
-                    stats["eval_" + r.replace(" ", "_")] += 1
-            if kind in IW.DEF_EDITS:
-                run.post_edit(world, op)
-            # ---- oracles
-            if kind in ("item", "eval", "assign"):
-                run.check_item(world, op, r, hist)
-            if kind == "assign" and r == "ok":
-                tgt = IW.canon_chain(world.m, op[1], op[2])
-                tj = json.dumps(tgt) if tgt else None
-                for (p, cj), (d, held) in before.items():
-                    inside = tj is not None and p == op[1] and (cj == tj or tj.startswith(cj[:-1]) or cj.startswith(tj[:-1]))
-                    if inside or not d._is_valid():
-                        continue
-                    now = IW.held_values(d)
-                    stats["isolation_checks"] += 1
-                    if now != held:
-                        out.fail("an assignment in %s changed held values of %s" % (
-                            IW.chain_txt(op[1], op[2]), IW.chain_txt(p, json.loads(cj))), hist,
-                            detail={"before": held, "after": now})
-            if kind == "eval" and r.startswith("ok") and run.edited_with_two:
-                run.nontrivial = True
-            run.check_handles(world, hist, kind)
-            if is_edit:
-                run.check_fresh(world, ops, k, hist)
+        try:
+            k = 0
+            while True:
+                if k >= len(ops):
+                    if rng is None or k >= n_ops:
+                        break
+                    ops.append(gen_next(rng, world, ops, wide))
+                op = ops[k]
+                hist = {"ops": ops[:k + 1]}
+                kind = op[0]
+                stats["op:" + kind] += 1
+                is_edit = kind in IW.EDIT_KINDS
+                live_before = [e for e in IW.dyn_entries(world.m) if e[3] and len(e[1]) == 1]
                 if kind in IW.DEF_EDITS:
-                    run.check_replica(world, hist)
-            elif kind == "eval":
-                cc = IW.canon_chain(world.m, op[1], op[2])
-                obj = IW.resolve(world.m, op[1], cc) if cc else None
-                if obj is not None:
-                    # the queried instance against the replica (its enclosing instances too)
-                    chainimpls = []
-                    cur = obj._impl
-                    while cur is not None and not cur.is_model() and cur.is_dynamic():
-                        chainimpls.append(cur)
-                        cur = cur.parent
-                    run.check_replica(world, hist, only=chainimpls)
-            run.take_handles(world)
-            k += 1
-            if run.hard or len(out.failures) >= 4:
-                break
-        if not run.hard and len(out.failures) < 4:
-            hist = {"ops": list(ops)}
-            run.check_fresh(world, ops, len(ops) - 1, hist)
-            run.check_replica(world, hist)
-        if corr and corr_eligible(ops) and not run.hard:
-            stats["correspondence_histories"] += 1
-            stats["correspondence_lines"] += 2 * len(records)
-            correspond(ops, records, out)
+                    per_parent = collections.Counter(e[0] for e in live_before)
+                    if per_parent and max(per_parent.values()) >= 2:
+                        run.edited_with_two = True
+                        stats["edits_with_two_live_instances"] += 1
+                    run.pre_edit(world, op)
+                if kind == "assign":
+                    before = {}
+                    target = IW.canon_chain(world.m, op[1], op[2])
+                    for p, c, d, it in IW.dyn_entries(world.m):
+                        if it:
+                            before[(p, json.dumps(c))] = (d, IW.held_values(d))
+                had_ref = False
+                if kind == "set_ref":
+                    try:
+                        had_ref = op[2] in IW.static_space(world.m, op[1])._own_refs
+                    except Exception:
+                        pass
+                r = world.apply(op)
+                trace.append(r)
+                if corr:
+                    st = IW.all_static(world.m)
+                    pend, run.pending = run.pending, []
+                    records.append((k, pend + model_lines_for(op, r, had_ref, st[0][0] if st else None),
+                                    impl_result_for(world, op, r), impl_obs(world, keep)))
+                if r.startswith("err"):
+                    stats["rejected:" + kind] += 1
+                    if kind == "eval":
+                        stats["eval_" + r.replace(" ", "_")] += 1
+                if kind in IW.DEF_EDITS:
+                    run.post_edit(world, op)
+                # ---- oracles
+                if kind in ("item", "eval", "assign"):
+                    run.check_item(world, op, r, hist)
+                if kind == "assign" and r == "ok":
+                    tgt = IW.canon_chain(world.m, op[1], op[2])
+                    tj = json.dumps(tgt) if tgt else None
+                    for (p, cj), (d, held) in before.items():
+                        inside = tj is not None and p == op[1] and (cj == tj or tj.startswith(cj[:-1]) or cj.startswith(tj[:-1]))
+                        if inside or not d._is_valid():
+                            continue
+                        now = IW.held_values(d)
+                        stats["isolation_checks"] += 1
+                        if now != held:
+                            out.fail("an assignment in %s changed held values of %s" % (
+                                IW.chain_txt(op[1], op[2]), IW.chain_txt(p, json.loads(cj))), hist,
+                                detail={"before": held, "after": now})
+                if kind == "eval" and r.startswith("ok") and run.edited_with_two:
+                    run.nontrivial = True
+                run.check_handles(world, hist, kind)
+                if is_edit:
+                    run.check_fresh(world, ops, k, hist)
+                    if kind in IW.DEF_EDITS:
+                        run.check_replica(world, hist)
+                elif kind == "eval":
+                    cc = IW.canon_chain(world.m, op[1], op[2])
+                    obj = IW.resolve(world.m, op[1], cc) if cc else None
+                    if obj is not None:
+                        # the queried instance against the replica (its enclosing instances too)
+                        chainimpls = []
+                        cur = obj._impl
+                        while cur is not None and not cur.is_model() and cur.is_dynamic():
+                            chainimpls.append(cur)
+                            cur = cur.parent
+                        run.check_replica(world, hist, only=chainimpls)
+                run.take_handles(world)
+                k += 1
+                if run.hard or len(out.failures) >= 4:
+                    break
+            if not run.hard and len(out.failures) < 4:
+                hist = {"ops": list(ops)}
+                run.check_fresh(world, ops, len(ops) - 1, hist)
+                run.check_replica(world, hist)
+            if corr and corr_eligible(ops) and not run.hard:
+                stats["correspondence_histories"] += 1
+                stats["correspondence_lines"] += 2 * len(records)
+                correspond(ops, records, out)
+        except core.Infra:
+            raise
+        except Exception as e:
+            # an exception of the implementation while the harness looks at the model (oracles, choice of the next
+            # operation) is an observation about the implementation, reported with the history that led to it
+            if not core.raised_by_impl(e):
+                raise
+            out.fail("the model cannot be observed after %s: modelx raised %s" % (
+                ops[min(k, len(ops) - 1)][0] if ops else "nothing", core.impl_error_text(e)),
+                {"ops": ops[:k + 1]})
     finally:
         world.close()
         close_all()
     return run.nontrivial, trace
+
+
+# ----------------------------------------------------------------------------- motif x single edit
+#
+# Small-scope exhaustive part.  What an instance serves is built from definitions that can live in many
+# places: the parametrised space, its child and grandchild spaces, the spaces any of them DERIVES from, the
+# foreign base a parameter formula chooses, that base's children and bases, the model.  After every motif
+# program two instances of every parametrised space are created and evaluated completely (nested parametrised
+# children through them), then ONE edit is made - every kind of definition edit at every one of those places
+# (quick tier: all deletions plus a seeded sample of the rest) - and the same accesses are repeated.  The
+# oracles are those of every history: (c) freshness against an edits-only model, (a) the plain replica,
+# (d) handles, (id).  Nothing reads the static spaces in between (reading them refreshes their lazily
+# evaluated namespaces, which is exactly what must not be needed).
+
+def first_cells(space, prefix=()):
+    """(attribute chain, cells name) of some cells in the tree of a static space, or None"""
+    for cn in space.cells:
+        return list(prefix), cn
+    for name, ch in space.spaces.items():
+        if IW.params_of(ch) is None:
+            r = first_cells(ch, prefix + (name,))
+            if r:
+                return r
+    return None
+
+
+def instance_queries(m):
+    """accesses that create two instances of every top-level parametrised space and evaluate some cells in each
+    (the replica oracle then evaluates the whole tree of the instance); nested parametrised children likewise"""
+    q = []
+    for path, s in IW.all_static(m):
+        if "." in path or not IW.params_of(s):
+            continue
+        for a in (1, 2):
+            chain = [["idx", [a]]]
+            base = target_base(m, path, chain)
+            if base is None:
+                continue
+            fc = first_cells(base)
+            if fc:
+                q.append(["eval", path, chain + [["attr", n] for n in fc[0]], fc[1], 1])
+            else:
+                q.append(["item", path, chain])
+            for name, ch in base.spaces.items():
+                if IW.params_of(ch):
+                    # a nested instance under the SAME argument as the outer instance (a = 1) / under another one
+                    for b in ((a,) if a == 1 else (3,)):
+                        c2 = chain + [["attr", name], ["idx", [b]]]
+                        fc2 = first_cells(ch)
+                        q.append(["eval", path, c2 + [["attr", n] for n in fc2[0]], fc2[1], 1] if fc2 else ["item", path, c2])
+    # callers in a plain space that create instances from inside their formulas hold values computed through them
+    if "C" in m.spaces:
+        for cn in m.spaces["C"].cells:
+            for a in (1, 2):
+                q.append(["evalstatic", "C", cn, a])
+    return q
+
+
+DELETIONS = ("del_cells", "del_ref", "del_mref", "remove_bases", "del_space")
+
+
+def single_edits(m):
+    """every single definition edit applicable to the static model"""
+    edits = []
+    statics = IW.all_static(m)
+    plain = [p for p, sp in statics if "." not in p and IW.params_of(sp) is None and p != "C"]
+    n = 0
+    for path, s in statics:
+        depth = path.count(".")
+        for cn, c in s.cells.items():
+            n += 1
+            edits.append(["set_formula", path, cn, C(0, k=6 + n % 3)])
+            if not c._is_derived():
+                edits.append(["del_cells", path, cn])
+                free = [x for x in CELLS if x not in s.cells]
+                if free:
+                    edits.append(["rename_cells", path, cn, free[0]])
+        for rn in list(s._own_refs):
+            if not s._impl.own_refs[rn].is_derived():
+                edits.append(["set_ref", path, rn, 40 + n])
+                edits.append(["del_ref", path, rn])
+            else:
+                edits.append(["set_ref", path, rn, 45 + n])          # override a derived reference
+        for rn in REFS:
+            if rn not in s._own_refs:
+                edits.append(["set_ref", path, rn, 50])                # a new reference (may shadow a parameter / model ref)
+        free = [x for x in CELLS if x not in s.cells]
+        if free:
+            edits.append(["new_cells", path, free[0], C(0, k=9)])
+        db = [b.fullname.split(".", 1)[1] for b in s._direct_bases]
+        for b in db:
+            edits.append(["remove_bases", path, [b]])
+        for b in plain:
+            if b != path.split(".")[0] and b not in db:
+                edits.append(["add_bases", path, [b]])
+        edits.append(["del_space", path])
+        if depth < 2:
+            pool = [x for x in (CHILD if depth == 0 else GRAND) if x not in s.spaces]
+            if pool:
+                edits.append(["new_space", path, pool[0], None, []])
+                if plain and plain[0] != path.split(".")[0]:
+                    edits.append(["new_space", path, pool[0], None, [plain[0]]])
+        if path != "C":
+            cur = PF_IDX.get(s._impl.formula.source) if s._impl.formula is not None else None
+            if depth == 0 and cur is not None:
+                for alt in (0, 1, 2):
+                    if alt != cur:
+                        edits.append(["set_pformula", path, alt])
+                        break
+            elif depth > 0:
+                edits.append(["set_pformula", path, 5 if cur is None else None])
+    for k in MREFS:
+        edits.append(["set_mref", k, 60])
+        if k in m.refs:
+            edits.append(["del_mref", k])
+    out = []
+    for e in edits:
+        if e not in out:
+            out.append(e)
+    return out
+
+
+PF_IDX = IW.PF_BY_SRC
+
+
+def repointing_edits(m, edits):
+    """the base-adding edits (of a `single_edits` list) that can change the FIRST definer of a member some space
+    already derives: the added base (or a space it derives from) has a cells / reference name that the edited space
+    or a space deriving from it already has as a DERIVED member.  The existing derived member is then re-pointed in
+    place (nothing is created or deleted), which is the case in which everything built from it has to be told."""
+    out = []
+    statics = dict(IW.all_static(m))
+    for e in edits:
+        if e[0] != "add_bases":
+            continue
+        try:
+            target = statics[e[1]]
+            names = set()
+            for b in e[2]:
+                names |= set(statics[b].cells) | set(statics[b]._own_refs)
+            subs = [target] + [sp for sp in statics.values() if any(x is target for x in sp.bases)]
+            derived = set()
+            for sp in subs:
+                derived |= {n for n, c in sp.cells.items() if c._is_derived()}
+                derived |= {n for n in sp._own_refs if sp._impl.own_refs[n].is_derived()}
+            if names & derived:
+                out.append(e)
+        except Exception:
+            continue
+    return out
+
+
+def enumerate_edits(ctx, out, stats, motifs=None, per_motif=8):
+    for mi, mo in enumerate(MOTIFS):
+        if motifs is not None and mi not in motifs:
+            continue
+        prefix = [["set_mref", "u", 11]] + [json.loads(json.dumps(o)) for o in mo]
+        close_all()
+        w = IW.World("M")
+        try:
+            for op in prefix:
+                w.apply(op)
+            queries = instance_queries(w.m)
+            edits = single_edits(w.m)
+            repoint = repointing_edits(w.m, edits)
+        except core.Infra:
+            raise
+        except Exception as e:
+            if not core.raised_by_impl(e):
+                raise
+            out.fail("the model cannot be observed after a motif program: modelx raised %s" % core.impl_error_text(e),
+                     {"ops": prefix})
+            continue
+        finally:
+            w.close()
+            close_all()
+        rng = ctx.rng("enum", mi)
+        if ctx.tier == "thorough":
+            chosen = edits
+        else:
+            always = [e for e in edits if e[0] in DELETIONS or e in repoint]
+            rest = [e for e in edits if e not in always]
+            # (the motifs with several parents / nested instances are the expensive ones: a smaller sample there)
+            chosen = always + rng.sample(rest, min(len(rest), per_motif if mi < 13 else per_motif // 2))
+            stats["enumerated_repointing_add_bases"] += len(repoint)
+        for e in chosen:
+            ops = [json.loads(json.dumps(o)) for o in prefix + queries + [e] + queries]
+            sub = core.Outcome()
+            run_one(ops, sub, stats, wide=True)
+            out.failures += sub.failures
+            out.disagreements += sub.disagreements
+            stats["enumerated_scenarios"] += 1
+            stats["enumerated:" + e[0]] += 1
+            if len([f for f in out.failures if not f.get("key")]) >= 4:
+                return
 
 
 def load_corpus():
@@ -1112,6 +1370,8 @@ def run(ctx, out):
             nontrivial += bool(nt)
         if len(samples) < 2 and rng is not None:
             samples.append([json.dumps(o) for o in ops])
+    if len([f for f in out.failures if not f.get("key")]) < 4:
+        enumerate_edits(ctx, out, stats)
     nb = bind_stream(ctx, out, stats)
     nr = ref_stream(ctx, out, stats)
     stats["bind_cases"] = nb
@@ -1121,8 +1381,12 @@ def run(ctx, out):
         "theorem: it is checked by the implementation-only oracle against a plain replica on every history; the Lean "
         "theorems cover binding, instance identity/handles under all histories, what edits leave behind, and the "
         "order of the reference chain")
-    out.coverage.update({"evaluations": len(cases), "programs": len(seen), "distinct_nontrivial": nontrivial,
-                         "rule": RULE, "samples": samples, "input_distribution": dict(stats),
+    out.coverage.update({"evaluations": len(cases) + stats["enumerated_scenarios"], "programs": len(seen),
+                         "distinct_nontrivial": nontrivial,
+                         "rule": RULE + "; plus, after each of the %d motif programs with two instances of every parametrised "
+                                        "space created and evaluated, single definition edits at every place a definition "
+                                        "lives (quick: all deletions + a sample; thorough: all), accesses repeated" % len(MOTIFS),
+                         "samples": samples, "input_distribution": dict(stats),
                          "corpus_cases": len(cases) - n, "traces_validated_against_impl": len(cases)})
 
 
